@@ -33,10 +33,27 @@ def pw_arrays(draw, kind, q, k0, n, max_pieces, pool=None, near_x=None):
     style 'near' then produces breakpoints that coincide with those up to
     +-2^-24 - almost but not exactly shared breakpoints."""
     interior = list(range(1, n))
-    styles = ["random", "single", "pool", "early", "late", "random"]
+    styles = ["random", "single", "pool", "early", "late", "random", "antisym"]
     if near_x is not None and len(near_x) > 2:
         styles += ["near", "near"]
     style = draw(st.sampled_from(styles))
+    if style == "antisym" and n >= 4:
+        # a sign-changing function whose integral is EXACTLY zero: breakpoints mirrored
+        # about the centre, mirrored values with opposite sign, 0 on the middle piece
+        left = sorted(draw(st.lists(st.integers(1, (n - 1) // 2), min_size=1,
+                                    max_size=max(1, min(3, (max_pieces - 1) // 2)),
+                                    unique=True)))
+        xs_ = [0] + left + [n - p_ for p_ in reversed(left)] + [n]
+        vals = draw(st.lists(st.integers(-40, 40).filter(lambda v: v != 0).map(
+            lambda v: v / 8.0), min_size=len(left), max_size=len(left)))
+        ys = vals + [0.0] + [-v for v in reversed(vals)]
+        f = dict(kind=kind, x=[(k0 + p_) / q for p_ in xs_])
+        if kind == "pwc":
+            f["y"] = ys
+        else:
+            f["y1"] = list(ys)
+            f["y2"] = list(ys)
+        return f
     if style == "near":
         xs = [near_x[0]]
         for v in near_x[1:-1]:
